@@ -619,3 +619,91 @@ def gen_c02(rng, fs, i, cfg):
             return None
         return gen_coarsen_op(rng, fs, rng.choice(have), i)
     return op
+
+
+# ===========================================================================
+# C11: balancing
+# ===========================================================================
+MAPS = ["builtin", "eager", "pool.map", "pool.imap", "pool.imap_unordered", "pool.imap_unordered", "cli"]
+
+
+def gen_balance_options(rng, n, nchroms):
+    o = {}
+    mode = rng.choice(["gw", "gw", "gw", "cis", "trans"])
+    if mode == "cis":
+        o["cis_only"] = True
+    if mode == "trans" and nchroms >= 2:
+        o["trans_only"] = True
+    o["ignore_diags"] = rng.choice([0, 1, 1, 2, 2, 3])
+    o["min_nnz"] = rng.choice([0, 0, 1, 2, 3, 10])
+    o["min_count"] = rng.choice([0, 0, 0, 5, 20])
+    o["mad_max"] = rng.choice([0, 0, 3, 5])
+    o["tol"] = rng.choice([1e-5, 1e-3, 1e-8, 1e-2])
+    o["max_iters"] = rng.choice([200, 50, 3, 1])
+    if rng.random() < 0.2:
+        o["blacklist"] = sorted(rng.sample(range(n), rng.randint(1, max(1, n // 4))))
+    if rng.random() < 0.15:
+        o["x0"] = [rng.choice([1.0, 1.0, 0.5, 2.0, 0.0]) for _ in range(n)]
+    if rng.random() < 0.15:
+        o["rescale"] = False
+    return o
+
+
+def gen_c11(rng, fs, i, cfg):
+    ctx = _ctx(cfg)
+    if i == 0 or "made" not in ctx:
+        ctx["made"] = True
+        lay = gen.gen_layout(rng, cfg.get("maxchroms", 3), cfg.get("maxbins", 7),
+                             rng.choice(["fixed", "fixed", "variable", "fixed-exact", "mixed-one"]))
+        n = gen.nbins_of(lay)
+        dens = rng.choice(["dense", "dense", "sparse", "sparse", "row"])
+        support = gen.gen_support(rng, n, True, dens, cfg.get("maxpx", 90))
+        # empty rows and isolated bins
+        if n > 3 and rng.random() < 0.5:
+            dead = rng.randrange(n)
+            support = [p for p in support if dead not in p]
+        vals = [rng.randint(1, 30) for _ in support]
+        rec = gen.pixels_record(support, {"count": vals})
+        op = {"op": "create", "layout": lay, "symmetric": True, "dtypes": {"count": "int32"}, "form": "df",
+              "chunks": [rec], "arraychunk": None, "h5opts": {"compression": None, "shuffle": False},
+              "metadata": None, "assembly": None, "bin_extra": None, "fault": None,
+              "file": "f0", "path": rng.choice(["/", "/m"]), "mode": "a"}
+        ctx["dest"] = ("f0", op["path"])
+        ctx["n"] = n
+        ctx["nnz"] = len(support)
+        ctx["nchroms"] = len(lay["names"])
+        return op
+    f, p = ctx["dest"]
+    n, nnz = ctx["n"], max(1, ctx["nnz"])
+    opts = gen_balance_options(rng, n, ctx["nchroms"])
+    small = nnz <= 60
+    sizes = [nnz - 1, nnz, nnz + 1, max(1, nnz // 2), max(1, nnz // 3), 7, 10, 10_000_000]
+    if small:
+        sizes += [1, 2, 3]
+        if opts["max_iters"] > 50:
+            opts["max_iters"] = 50
+    sizes = [s for s in sizes if s >= 1]
+    configs = []
+    for _ in range(rng.randint(3, 5)):
+        m = rng.choice(MAPS)
+        c = {"map": m, "chunksize": rng.choice(sizes), "policy": rng.choice(
+            ["uniform", "reverse", "rotate", "starve", "sticky", "workers-first", "fifo"])}
+        if m.startswith("pool") or m == "cli":
+            c["nproc"] = rng.choice([2, 2, 3, 4])
+        if m.startswith("pool"):
+            c["use_lock"] = rng.random() < 0.3
+            c["repeat"] = rng.random() < 0.4
+        if m == "cli" and c["chunksize"] < 3 and not small:
+            c["chunksize"] = 10
+        configs.append(c)
+    if rng.random() < 0.3:
+        configs.append({"map": "builtin", "chunksize": None, "repeat": True})
+    visit = []
+    for _ in range(rng.randint(1, 2)):
+        m = rng.choice(["builtin", "eager", "pool.map", "pool.imap", "pool.imap_unordered"])
+        v = {"map": m, "chunksize": rng.choice([1, 2, 3, 5, nnz - 1 if nnz > 1 else 1, nnz, nnz + 1, 10_000_000]),
+             "policy": rng.choice(["uniform", "reverse", "rotate"])}
+        if m.startswith("pool"):
+            v["nproc"] = rng.choice([2, 3, 4])
+        visit.append(v)
+    return {"op": "balance", "file": f, "path": p, "options": opts, "configs": configs, "visit": visit}
